@@ -684,7 +684,7 @@ func (req *Request) parsePostArgs() {
 		return
 	}
 	req.parsedPostArgs = true
-	if !bytes.HasPrefix(req.Header.ContentType(), bytestr.MIMEPostForm) {
+	if !hasPrefixFold(req.Header.ContentType(), bytestr.MIMEPostForm) {
 		return
 	}
 	req.postArgs.ParseBytes(req.Body())
